@@ -46,6 +46,8 @@ func main() {
 	only := flag.String("rule", "", "only report obligations whose rule id has this prefix (replay)")
 	verbose := flag.Bool("v", false, "print every obligation")
 	dump := flag.String("dump", "", "debug: dump SSA of pkgrel:Func[,..]")
+	cfgName := flag.String("cfg", "", "internal: analyse under an alternative build configuration (tags|windows|386)")
+	overlay := flag.String("overlay", "", "internal: JSON file {abs path: content} analysed instead of the files on disk")
 	flag.Parse()
 	if *dump != "" {
 		dumpFuncs(*root, *dump)
@@ -83,6 +85,30 @@ func main() {
 	}
 	t0 := time.Now()
 	var extraEnv []string
+	if *cfgName != "" {
+		e, ok := altConfigs[*cfgName]
+		if !ok {
+			fmt.Fprintf(os.Stderr, "CHECKER-BROKEN: unknown configuration %s\n", *cfgName)
+			os.Exit(2)
+		}
+		extraEnv = e
+	}
+	if *overlay != "" {
+		b, err := os.ReadFile(*overlay)
+		if err == nil {
+			m := map[string]string{}
+			err = json.Unmarshal(b, &m)
+			core.Overlay = map[string][]byte{}
+			for k, v := range m {
+				core.Overlay[k] = []byte(v)
+			}
+		}
+		if err != nil {
+			fmt.Fprintf(os.Stderr, "CHECKER-BROKEN: overlay: %v\n", err)
+			os.Exit(2)
+		}
+	}
+	release := acquireSlot()
 	p, err := core.Load(*root, extraEnv...)
 	if err != nil {
 		fmt.Fprintf(os.Stderr, "CHECKER-BROKEN: %v\n", err)
@@ -96,6 +122,16 @@ func main() {
 			exit = code
 		}
 		t0 = time.Now()
+	}
+	p = nil
+	release()
+	if *tier == "thorough" && *cfgName == "" && *overlay == "" && *only == "" {
+		debug.FreeOSMemory()
+		for _, id := range props {
+			if code := thorough(id, *root, *out, *known); code > exit {
+				exit = code
+			}
+		}
 	}
 	os.Exit(exit)
 }
